@@ -580,6 +580,9 @@ def gen_plan(seed: int, cls: str) -> dict:
     if ro.random() < 0.25:
         pos = ro.randrange(len(ops) + 1)
         ops[pos:pos] = _shared_condition_scenario(ro, sym)
+    if ro.random() < 0.2:
+        pos = ro.randrange(len(ops) + 1)
+        ops[pos:pos] = _equal_looking_conditions_scenario(ro, sym)
     if ro.random() < 0.3 and ndict < 5:
         extra = _handler_identity_scenario(ro, sym, ndict, knobs)
         ndict += 2
@@ -713,6 +716,26 @@ def _shared_condition_scenario(ro, sym):
     out.append({'op': 'inline', 't': w(combo), 'data': tg.enc(wd(combo_ok)), 'custom': None})
     for d in ro.sample(probes, ro.choice([2, 3])):
         out.append({'op': 'inline', 't': w(alone), 'data': tg.enc(wd(d)), 'custom': None, 'pristine': True})
+    return out
+
+
+def _equal_looking_conditions_scenario(ro, sym):
+    """
+    Two conditions produced by one user factory (`one_of('a', 'b')`, `one_of('x', 'y')`: same name, same code object,
+    different captured values) annotate the same inner type at two points of the history.  `typing` memoises
+    `Annotated[T, c]` by the *equality* of its arguments, so whatever pane defines as equality of its annotation
+    objects decides whether the second type silently is the first.
+    """
+    names = ['oneof_ab', 'oneof_xy', 'oneof_ax']
+    ro.shuffle(names)
+    inner = ro.choice([['s', 'str'], ['s', 'str'], ['opt', ['s', 'str']]])
+    wrap = ro.choice([None, None, 'list'])
+    out = []
+    for (k, cn) in enumerate(names[:ro.choice([2, 3])]):
+        ast = ['ann', inner, cn]
+        for d in ro.sample(['a', 'b', 'x', 'y'], 2):
+            t_, d_ = (ast, d) if wrap is None else ([wrap, ast], [d])
+            out.append({'op': 'inline', 't': t_, 'data': tg.enc(d_), 'custom': None, 'pristine': k > 0})
     return out
 
 
